@@ -7,6 +7,7 @@ import Qfx.Lemmas.TsShape
 import Qfx.Lemmas.TsRoundTrip
 import Qfx.Lemmas.Decimal
 import Qfx.Lemmas.Float
+import Qfx.Lemmas.FloatWrite
 open Qfx Qfx.Spec
 
 /-! ## int -/
@@ -288,23 +289,46 @@ theorem C14_float_ok_iff (b : Bytes) :
 #guard monFloatWrite 0x3fb999999999999a [toHex (asciiOf "0.1")] == [] && monFloatWrite 0x3fb999999999999a [toHex (asciiOf "0.10")] == ["float_write_not_canonical"]
 #guard monFloatWrite 0x3fb999999999999a [toHex (asciiOf "0.100000")] != [] && monFloatWrite 0x3ff0000000000000 [toHex (asciiOf "1e+00")] == ["float_write_nongrammar"]
 
-/-- the full model-level round trip (every finite bit pattern written by the model's writer reads back as itself):
-    not proved here — it needs, on top of the theorems above, that `renderPos` denotes the candidate that `tryK` checked
-    (scaling invariance of `Nearest` and the digit lemmas of `fmtNat`/`digitsW`) and that `exactDec` is exact.
-    The implementation's writer is checked against the same requirement by the monitor clause `float_write_read` on every
-    generated value, and `C14_float_write_read_model` turns that clause into "Read returns the bits". -/
-def C14_float_write_read_full : Prop :=
-  ∀ bits : Nat, bits < 2 ^ 64 → ordOf bits < infOrd → readFloat (writeFloat bits) = .ok bits
+/-- "writing a value and reading the text back yields the same value", on the model, for EVERY finite 64-bit pattern
+    (both signs, zeros, subnormals, up to the largest finite double): the shortest-digits positional text that the
+    model's writer produces is read back by the model's reader as exactly the same bits -/
+theorem C14_float_write_read (bits : Nat) (h64 : bits < 18446744073709551616) (hfin : ordOf bits < infOrd) :
+    readFloat (writeFloat bits) = .ok bits := writeFloat_read bits h64 hfin
+
+/-- the written text is in the FIX float grammar (no exponent, no "+", no Inf/NaN) and, declaratively, denotes a rational
+    whose nearest double is the value written -/
+theorem C14_float_write_grammar (bits : Nat) (h64 : bits < 18446744073709551616) (hfin : ordOf bits < infOrd) :
+    FloatGrammar (writeFloat bits) = true ∧
+    IsNearestBits (floatNeg (writeFloat bits)) (floatNum (writeFloat bits)) (floatDen (writeFloat bits)) bits :=
+  C14_float_read_nearest _ _ (writeFloat_read bits h64 hfin)
 
 /-- canonical texts are exactly the outputs of `Write` on finite values -/
-def FloatCanonical (b : Bytes) : Prop := ∃ bits, bits < 2 ^ 64 ∧ ordOf bits < infOrd ∧ b = writeFloat bits
+def FloatCanonical (b : Bytes) : Prop := ∃ bits, bits < 18446744073709551616 ∧ ordOf bits < infOrd ∧ b = writeFloat bits
 
-/-- read→write ("reading a canonical text and writing it back yields the same text") follows from write→read -/
-theorem C14_float_read_write_of_write_read (hwr : C14_float_write_read_full)
-    (b : Bytes) (hc : FloatCanonical b) (v : Nat) (hr : readFloat b = .ok v) : writeFloat v = b := by
+/-- "reading a canonical text and writing it back yields the same text" -/
+theorem C14_float_read_write (b : Bytes) (hc : FloatCanonical b) (v : Nat) (hr : readFloat b = .ok v) : writeFloat v = b := by
   obtain ⟨bits, h64, hfin, rfl⟩ := hc
-  rw [hwr bits h64 hfin] at hr
+  rw [writeFloat_read bits h64 hfin] at hr
   cases hr; rfl
+
+/-! non-vacuity of `FloatCanonical` (evaluated: `Nat.log2` does not reduce in the kernel) -/
+#guard writeFloat 0 == asciiOf "0" && writeFloat 0x4059000000000000 == asciiOf "100" && writeFloat 0xbfe0000000000000 == asciiOf "-0.5"
+#guard [0, 1, 0x8000000000000000, 0x3fb999999999999a, 0x7fefffffffffffff, 0x0010000000000000, 0xc340000000000001].all
+  fun bits => readFloat (writeFloat bits) == .ok bits
+
+/-- not proved (full statement): the model's writer emits the SHORTEST text that reads back — no text of the grammar with
+    fewer significant digits has the value as its nearest double — and of those the closest.  `tryK`/`shortestFrom`
+    search candidates in increasing length, so this needs that the two candidates per length are the only possible
+    ones (convexity of the set of rationals reading back to one double) and that 17 digits always suffice.  On the
+    implementation the clauses float_write_not_shortest / float_write_not_closest check it per generated value. -/
+def sigDigits (t : Bytes) : Nat := (fmtNat (stripT t.length (floatNum t) 0).1).length
+
+def C14_float_write_shortest_full : Prop :=
+  ∀ bits : Nat, bits < 18446744073709551616 → ordOf bits < infOrd →
+    ∀ t : Bytes, FloatGrammar t = true → IsNearestBits (floatNeg t) (floatNum t) (floatDen t) bits →
+      sigDigits (writeFloat bits) ≤ sigDigits t
+
+#guard sigDigits (asciiOf "0.10000000000000001") == 17 && sigDigits (asciiOf "1200.0") == 2 && sigDigits (writeFloat 0x3fb999999999999a) == 1
 
 end FloatValues
 
@@ -410,11 +434,12 @@ Clause checklist (properties.jsonl C14 → theorems)
 * float grammar exactly:  C14_float_accept_iff_grammar, C14_float_ok_iff (grammar ∧ in range ⇔ accepted; never a fault)
 * float value read:       C14_float_read_nearest (every accepted text is read as the correctly rounded double of its rational, sign kept),
                           C14_float_round_nearest, C14_float_nearest_unique(_ord) (the declarative reading determines the bits)
-* float write→read:       C14_float_write_read_model (a text whose declarative reading is `bits` is read as `bits`; the monitor clause
-                          float_write_read establishes the premise for the implementation's writer on every generated value);
-                          C14_float_write_read_full (def, not proved: the model's own shortest-digit writer round-trips for all 2^64−2^53 finite patterns)
-* float read→write:       C14_float_read_write_of_write_read (conditional on the former); shortest/closest/canonical form of strconv's
-                          output: monitor clauses float_write_not_shortest / _not_closest / _not_canonical + correspondence with the model's writer
+* float write→read:       C14_float_write_read (model: every finite bit pattern; all 2^64 − 2^53 of them), C14_float_write_grammar,
+                          C14_float_write_read_model (ANY text whose declarative reading is `bits` is read as `bits`; the monitor clause
+                          float_write_read establishes the premise for the implementation's writer on every generated value)
+* float read→write:       C14_float_read_write (canonical = what Write produces); that strconv's digits are the model writer's digits
+                          (shortest, then closest, then even; %f-canonical form): monitor clauses float_write_not_shortest /
+                          _not_closest / _not_canonical + correspondence; C14_float_write_shortest_full (def, not proved)
 * timestamp write→read:   C14_ts_write_read; exactly the grammar: C14_ts_accept_iff_grammar; read→write: C14_ts_read_write
 * string/bytes:           C14_string_identity
 * decimal:                C14_dec_write_read, C14_dec_write_rounds_half_away, C14_dec_write_read_exact, C14_udec_write_read,
